@@ -28,7 +28,7 @@ def run(ctx) -> None:
     ctx.assumptions += ["objdump prints no '|' and no '::' inside a mnemonic/operand token (not checkable from the repo)"]
     ctx.analysed_fn("Instruction.stringify", "CompleteConsumer.consume_instruction", "CompleteConsumer.finalize",
                     "LineParser.parse_instruction", "LineParser.parse_instruction_no_operands", "LineParser.parse_nop_padding",
-                    "OperandsParser._process_operand_elem")
+                    "OperandsParser.parse (one operand)")
     I = make_interp(ctx.p)
     _writer(ctx, I, "C10.W.record-template", "C10.W.record-terminator")
     # W3: every scan searches the stream of its own run only
@@ -66,7 +66,7 @@ def run(ctx) -> None:
             cls = "&".join(k for k, v in a.items() if v)
             bad = [o for o in outs if "OP]" in o.replace("minus", "") and False]
             raw = [o for o in outs if _raw_slot(o)]
-            ctx.check(bool(outs) and not raw, "C10.F.operand-pieces-comma-free", "OperandsParser._process_operand_elem",
+            ctx.check(bool(outs) and not raw, "C10.F.operand-pieces-comma-free", "OperandsParser.parse (one operand)",
                       f"class[{cls}] -> {outs or raises}"[:220],
                       f"an operand with ',' inside parentheses [{cls}] is emitted from comma-split pieces only")
 
